@@ -60,6 +60,7 @@ func ErrorNew(msg string) error                 { panic("symbolic only") }
 func CtxCancelled(ctx interface{}) bool         { panic("symbolic only") }
 func CtxDeadline(ctx interface{}) (int64, bool) { panic("symbolic only") }
 func Now() int64                                { panic("symbolic only") }
+func SameMap(a, b map[string]interface{}) bool  { panic("symbolic only") }
 func SymbolicTime()                             { panic("symbolic only") }
 func AdvanceTo(t int64)                         { panic("symbolic only") }
 func BufString(buf interface{}) string          { panic("symbolic only") }
@@ -340,6 +341,8 @@ func (e *Engine) rtCall(c *CallCtx) (Value, bool) {
 		return TupleV{d, ok}, true
 	case "Now":
 		return e.now(st), true
+	case "SameMap":
+		return e.ptrEq(c.args[0].(Ptr), c.args[1].(Ptr)), true
 	case "SymbolicTime":
 		st.ghost["symtime"] = ts.T
 		return nil, true
@@ -413,6 +416,11 @@ func (e *Engine) doAssert(st *State, cond *Term, label string) {
 	// continue on the side where the assertion holds, if any
 	ok, m2 := e.feasible(st, cond)
 	if !ok {
+		if len(label) > 4 && label[0] == 'C' && label[3] == '.' && label[:3] != e.job.Prop {
+			// an obligation of another property sharing this harness failed on this path: keep
+			// going so that this property's own obligations further down are still evaluated
+			return
+		}
 		panic(pathEnd{kind: "stop"})
 	}
 	e.addPC(st, cond)
